@@ -141,6 +141,9 @@ type RevokeInfo struct {
 
 var ctx = context.Background()
 
+// opCtx is the context handed to the SDK for the operation in progress (cancellable by a fault plan).
+var opCtx, opCancel = context.WithCancel(context.Background())
+
 // idAlphabet is small and adversarial on purpose.
 func drawID(t *rapid.T, label string, simple bool, extra ...string) string {
 	if simple {
@@ -259,7 +262,19 @@ func New(t *rapid.T, opt Options) *World {
 		w.Start = time.Unix(1_700_000_000+int64(rapid.IntRange(0, 7199).Draw(t, "startOffset")), int64(rapid.IntRange(0, 999).Draw(t, "startMs"))*1e6)
 	}
 	verifhook.InstallClock(w.Start)
+	if opt.Fixed == nil && opt.Suffix == "" && !opt.SimpleIDs && rapid.IntRange(0, 3).Draw(t, "regionSuffix") == 0 {
+		opt.Suffix = "us-west-2"
+		w.Opt.Suffix = opt.Suffix
+	}
 	w.Log = &kit.CallLog{}
+	w.Log.OnSlow = func() {
+		// time passes inside a call: one creation-stamp tick and a bit
+		d := time.Second
+		if len(w.Procs) > 0 && w.Procs[0].Policy.CreateDatePrecision > d {
+			d = w.Procs[0].Policy.CreateDatePrecision
+		}
+		verifhook.Advance(d + 100*time.Millisecond)
+	}
 	w.Store = kit.NewStore(w.Log)
 	w.Store.Suffix = opt.Suffix
 	w.KMS = kit.NewSpyKMS(w.Log)
@@ -327,6 +342,15 @@ func (w *World) startProc(p *Proc) {
 	p.Factory = appencryption.NewSessionFactory(cfg, w.Store.For(p.Name), w.KMS.For(p.Name), w.AEAD, appencryption.WithSecretFactory(securememory.SecretFactory(w.Secrets)))
 	p.Closed = false
 	p.StartedAt = w.Now()
+}
+
+// newOpCtx returns a fresh cancellable context for one SDK call; a FaultCancel in the fault
+// plan cancels it while the call is running.
+func (w *World) newOpCtx() context.Context {
+	opCancel()
+	opCtx, opCancel = context.WithCancel(context.Background())
+	w.Log.OnCancel = opCancel
+	return opCtx
 }
 
 // Now is the virtual time in unix nanos.
@@ -553,13 +577,13 @@ func (w *World) Encrypt(s *Sess, payload []byte, viaStore bool, fresh bool) (*Ev
 	var err error
 	if viaStore {
 		var key interface{}
-		key, err = s.S.Store(ctx, payload, kvStore{w})
+		key, err = s.S.Store(w.newOpCtx(), payload, kvStore{w})
 		if err == nil {
 			d := w.kv[key.(int)]
 			drr = &d
 		}
 	} else {
-		drr, err = s.S.Encrypt(ctx, payload)
+		drr, err = s.S.Encrypt(w.newOpCtx(), payload)
 	}
 	ev.Err = err
 	s.Ops++
@@ -594,9 +618,9 @@ func (w *World) Decrypt(s *Sess, rec *Rec, viaLoad bool, fresh bool) (*Event, []
 	if viaLoad {
 		w.kvSeq++
 		w.kv[w.kvSeq] = arg
-		out, err = s.S.Load(ctx, w.kvSeq, kvStore{w})
+		out, err = s.S.Load(w.newOpCtx(), w.kvSeq, kvStore{w})
 	} else {
-		out, err = s.S.Decrypt(ctx, arg)
+		out, err = s.S.Decrypt(w.newOpCtx(), arg)
 	}
 	s.Ops++
 	ev.Err = err
